@@ -444,6 +444,13 @@ def r165(ctx, fx):
                 if k == "cast" or k == "addrof" or (k == "block" and key == "expr") or (k == "unary" and p_.get("op") == "Deref"):
                     child = p_
                     continue
+                if k == "binary" and p_.get("op") == "Sub" and is_colval(p_["l"]) and is_colval(p_["r"]):
+                    # a difference of two columns is a width only on one line: the span of a whole file ends in column 0
+                    same_line = any(q.get("k") == "if" and any(z.get("k") == "binary" and z.get("op") == "Eq" and sum(
+                        1 for w in lib.hwalk(z) if w.get("k") == "field" and w.get("name") == "line") >= 2 for z in lib.hwalk(q["cond"])) for q, _ in anc)
+                    if not same_line:
+                        bad = "subtracted from another column without a test that both lie on one line"
+                    break
                 if k == "binary" and p_.get("op") in ("Add", "Sub"):
                     other = p_["r"] if p_["l"] is child else p_["l"]
                     if lib.hlit(lib.strip(other)) is None or "Pos" in str(p_.get("ty", "")):
